@@ -31,6 +31,7 @@ Definition C17_clamp_stmt : Prop :=
     rrun k a p_f_is_between_range = rrun k a p_f_is_between /\
     rrun k a p_f_clamped01 = rrun k (env_of3 x 0 1) p_f_clamped /\ rrun k a p_f_clamp01 = rrun k a p_f_clamped01 /\
     rrun k a p_f_clamped_minus1_1 = rrun k (env_of3 x (-1) 1) p_f_clamped /\
+    rrun k a p_f_clamp_range = rrun k a p_f_clamped /\ rrun k a p_f_clamp_minus1_1 = rrun k a p_f_clamped_minus1_1 /\
     rrun k a p_f_is_between01 = rrun k (env_of3 x 0 1) p_f_is_between /\
     ret1 (rrun k a p_f_partial_min) (fun m => m = Rmin x lo) /\ ret1 (rrun k a p_f_partial_max) (fun m => m = Rmax x lo).
 
